@@ -28,10 +28,16 @@ def run_one(pid, m, tier, seed):
     shutil.copytree("/repo", scratch, symlinks=True, ignore=shutil.ignore_patterns(".git", "*.o", "*.a", "tests-output"))
     try:
         p = os.path.join(scratch, m["file"])
-        s = open(p).read()
-        if s.count(m["old"]) < 1:
-            return dict(name=m["name"], status="NOT-APPLICABLE (pattern not found)", wall=0)
-        s = s.replace(m["old"], m["new"], m.get("count", 1))
+        if "from_commit" in m:
+            # whole file as of an earlier commit (used to check that a repaired defect is still detected)
+            s = subprocess.run(["git", "-C", "/repo", "show", "%s:%s" % (m["from_commit"], m["file"])], capture_output=True, text=True).stdout
+            if not s:
+                return dict(name=m["name"], status="NOT-APPLICABLE (commit/file not found)", wall=0)
+        else:
+            s = open(p).read()
+            if s.count(m["old"]) < 1:
+                return dict(name=m["name"], status="NOT-APPLICABLE (pattern not found)", wall=0)
+            s = s.replace(m["old"], m["new"], m.get("count", 1))
         open(p, "w").write(s)
         env = dict(os.environ, VERIF_REPO=scratch, VERIF_SEED=str(seed))
         t = time.time()
